@@ -1,6 +1,6 @@
 //! hx_dsp2: drivers + loggers for the `dsp2` family
 //!   C17 oscillators and noise            (components osc, noise)           -> spec/Trace_Osc.tla
-//!   C18 sinc interpolation               (sinc, sinc_conv, sinc_lin)       -> spec/Trace_Sinc.tla
+//!   C18 sinc interpolation               (sinc, sinc_conv, sinc_lin, sinc_clin)     -> spec/Trace_Sinc.tla
 //!   C20 window functions and windower    (window, windower, winfn)         -> spec/Trace_Window.tla
 //! `hx_dsp2 run <stimuli> <trace>` executes stimuli (from TLC's MC_* runs or from `gen`) on the real
 //! crates and logs every call at its return.  `hx_dsp2 gen <seed> <quick|thorough> <stimuli> <osc|sinc|window>`
@@ -38,7 +38,7 @@ fn main() {
             let n = drive(&c.a1, &c.a2, |out, ex| match ex[0]["comp"].as_str().unwrap() {
                 "osc" => osc::osc_exec(out, ex),
                 "noise" => osc::noise_exec(out, ex),
-                "sinc" | "sinc_conv" | "sinc_lin" => sinc::exec(out, ex),
+                "sinc" | "sinc_conv" | "sinc_lin" | "sinc_clin" => sinc::exec(out, ex),
                 "window" | "windower" | "winfn" => window::exec(out, ex),
                 c => panic!("unknown component {}", c),
             });
